@@ -138,6 +138,7 @@ def real_signal(ctx):
         ncalls = rng.randrange(3, 9)
         workers = rng.choice([1, 2, 4])
         k = rng.randrange(0, ncalls)
+        long_call = {1: 1.4, 7: 2.6}.get(trial, 0) if ctx.quick else {1: 1.4, 7: 2.6, 13: 5.5}.get(trial, 0)
         chain = trial % 3 == 0          # a linear chain interrupted early: no later link may start (beyond one per worker)
         if chain:
             ncalls, workers, k = 9, rng.choice([1, 2]), rng.choice([1, 2, 3])
@@ -166,6 +167,8 @@ def real_signal(ctx):
                     time.sleep(0.02)
                     state["sig"] = time.monotonic()
                     signal.pthread_kill(threading.main_thread().ident, signal.SIGINT)
+                    if long_call:
+                        time.sleep(long_call)     # the interrupted call itself takes long: run must still wait for it
                 time.sleep(0.02)
                 with lock:
                     log.append(("end", i, time.monotonic()))
@@ -211,7 +214,7 @@ def real_signal(ctx):
         ctx.count("real_signal_shape", "chain" if chain else "random")
         with lock:
             snap = list(log)
-        case = {"ncalls": ncalls, "workers": workers, "k": k, "outcome": outcome, "log": [(a, b) for a, b, _ in snap],
+        case = {"ncalls": ncalls, "workers": workers, "k": k, "outcome": outcome, "interrupting_call_lasts_seconds": long_call, "log": [(a, b) for a, b, _ in snap],
                 "log_index_when_stop_was_set": tstop}
         starts = [i for kind, i, _ in snap if kind == "start"]
         ends = [i for kind, i, _ in snap if kind == "end"]
